@@ -9,7 +9,7 @@ NOT_APPLICABLE = {}
 CHECKS = {
     "C06": dict(
         technique="runtime monitoring: soundness oracle on every ACCEPTED input (OpenSSL verification over independently extracted CRI bytes and key) over base requests from rcgen and OpenSSL, exhaustive single-bit flips and structure-aware mutants; decode-back of the issued certificate",
-        text="Requests made by rcgen for every key family and by OpenSSL (P-384+SHA-256, P-256+SHA-384/512, RSA with SHA-1/224/384/512/SHA3, P-521, secp256k1, Ed448, RSA-1024, unsupported and unknown extensions, repeated subject attributes), every single-bit flip of selected requests, and tens of thousands of TLV-level and byte-level mutants are offered to from_der. For every accepted input the oracle re-extracts certificationRequestInfo, SubjectPublicKeyInfo and signature with its own tolerant reader and requires OpenSSL to verify; the request must not contain anything rcgen does not carry over; the certificate issued from it must embed the request's SPKI byte-for-byte and its subject / SAN / KU / EKU. Conservation: offered = accepted + rejected + panicked.",
+        text="Requests made by rcgen for every key family and by OpenSSL (P-384+SHA-256, P-256+SHA-384/512, RSA with SHA-1/224/384/512/SHA3, P-521, secp256k1, Ed448, RSA-1024, unsupported and unknown extensions, repeated subject attributes), every single-bit flip of selected requests, tens of thousands of TLV-level and byte-level mutants, and thousands of mutants of the to-be-signed part that are RE-SIGNED with the requester's key (validly signed odd requests) are offered to from_der. For every accepted input the oracle re-extracts certificationRequestInfo, SubjectPublicKeyInfo and signature with its own tolerant reader and requires OpenSSL to verify; the request must not contain anything rcgen does not carry over; the certificate issued from it must embed the request's SPKI byte-for-byte and (for requests that are strictly valid DER) its subject / SAN / KU / EKU. Conservation: offered = accepted + rejected + panicked.",
         design_ref="DESIGN.md 5/C06",
         note="Rejections are never judged. The unsigned wrapper (outer SEQUENCE, AlgorithmIdentifier tag bits, trailing elements) is read as tolerantly as x509-parser reads it, because it does not touch signed bytes, key or signature.",
     ),
@@ -69,13 +69,13 @@ CHECKS = {
     ),
     "C02": dict(
         technique="runtime monitoring: reference-model monitor (ParamSpec -> expected content) over two independent decoders (derx schema decoder, OpenSSL accessors)",
-        text="Every subset of the extension-bearing fields x 3 IsCa kinds (384), all 512 key-usage subsets, all prefix lengths 0..=255 x 2 families x 4 CIDR constructors, all 256 path lengths, the 4x4 key-identifier grid, every pool key x 3 public-key sources, and thousands of random parameter sets are built into real certificates; the decoded certificate must contain exactly the requested serial, validity, subject (types, string kinds, order), SubjectPublicKeyInfo, SAN, KU, EKU, BC/pathLen, NC (address/mask), CRL-DP, AKI, custom extensions (value and criticality), a SKI equal to the configured derivation (hashes computed by OpenSSL), nothing else; cert.params() and key_identifier() must agree with the DER.",
+        text="Every subset of the extension-bearing fields x 3 IsCa kinds (384), all 512 key-usage subsets, all prefix lengths 0..=255 x 2 families x 4 CIDR constructors, all 256 path lengths, the 4x4 key-identifier grid, every pool key x 3 public-key sources, artefacts beyond 64 KiB, the convenience entry points (generate_simple_self_signed, CertificateParams::new, accessors) and thousands of random parameter sets are built into real certificates; the decoded certificate must contain exactly the requested serial, validity, subject (types, string kinds, order), SubjectPublicKeyInfo, SAN, KU, EKU, BC/pathLen, NC (address/mask), CRL-DP, AKI, custom extensions (value and criticality), a SKI equal to the configured derivation (hashes computed by OpenSSL), nothing else; cert.params() and key_identifier() must agree with the DER.",
         design_ref="DESIGN.md 5/C02",
         note="Order of extensions / SAN entries / subtrees is not asserted (multisets); names are order-sensitive. Expectations never go through rcgen or x509-parser.",
     ),
     "C03": dict(
         technique="runtime monitoring: byte-level invariants (issuer==subject bytes, AKI==SKI) plus OpenSSL X509_verify_cert and webpki path validation as independent judges, over rcgen-made, re-imported and OpenSSL-made issuers",
-        text="Leaves are issued from (a) rcgen-generated CAs with names of every shape and all 4x4 key-id method pairs, (b) rcgen CAs exported, imported from DER/PEM and re-created with the same key, (c) CA certificates built by OpenSSL (repeated attribute types, several string types, with/without SKI, multi-valued RDNs via the CLI) and imported. Ok from import obliges: issuer bytes identical to the ORIGINAL certificate's subject, AKI equal to its SKI, OpenSSL and webpki accept the chain at a common validity time; Err from import is accepted.",
+        text="Leaves are issued from (a) rcgen-generated CAs with names of every shape and all 4x4 key-id method pairs, (b) rcgen CAs - roots and intermediates carrying both AKI and SKI - exported, imported from DER/PEM and re-created with the same key, (c) CA certificates built by OpenSSL (repeated attribute types, several string types, with/without SKI, multi-valued RDNs via the CLI) and imported. Ok from import obliges: issuer bytes identical to the ORIGINAL certificate's subject, AKI equal to its SKI, OpenSSL and webpki accept the chain at a common validity time; Err from import is accepted.",
         design_ref="DESIGN.md 5/C03",
         note="Validators are asked only when the issuer is a CA with non-empty name and cert-signing usage, leaf has no unknown critical extension; webpki only for algorithms its ring provider supports.",
     ),
@@ -99,7 +99,7 @@ CHECKS = {
     ),
     "C08": dict(
         technique="runtime monitoring: reference-model monitor over an independent CRL decoder; OpenSSL X509_CRL_get0_by_serial and webpki find_serial as independent revocation checkers; refusal predicates computed on whole seconds",
-        text="CRLs with 0..200 entries, the full reason x invalidity-date lattice, serial/CRL-number shapes, both scopes, four key-id methods, every issuer key, all 512 issuer key-usage sets, and thisUpdate/nextUpdate pairs including equality, reversal and sub-second differences; decoded issuer bytes, instants, CRL number, AKI (method of the CRL applied to the issuer key), IDP, entries (serial, time, reason with absent==unspecified, invalidity date as GeneralizedTime) must match; listed <=> revoked under OpenSSL and webpki; requests whose encoded nextUpdate <= thisUpdate or whose issuer lacks cRLSign must be refused.",
+        text="CRLs with 0..200 entries, the full reason x invalidity-date lattice, serial/CRL-number shapes, both scopes, four key-id methods, every issuer key, all 512 issuer key-usage sets, and thisUpdate/nextUpdate pairs including equality, reversal and sub-second differences; decoded issuer bytes, instants, CRL number, AKI (method of the CRL applied to the issuer key), IDP, entries (serial, time, reason with absent==unspecified, invalidity date as GeneralizedTime) must match; listed <=> revoked under OpenSSL X509_CRL_get0_by_serial and webpki find_serial, and for eligible cases under full path validation with CRL checking (OpenSSL CRL_CHECK, webpki RevocationOptions); requests whose encoded nextUpdate <= thisUpdate or whose issuer lacks cRLSign must be refused.",
         design_ref="DESIGN.md 5/C08",
         note="Entries are compared as a multiset. webpki is only asked for CRLs it can parse (CRL number <= 20 octets).",
     ),
